@@ -52,7 +52,7 @@ S = _FreshProxy(_S)
 
 from ..exact import Pure, call, case_rng, describe, present_nd
 
-RULE = ("every constructor exported by toqito.states / toqito.matrices on dims 2..5, qubit counts 1..5 (0..5 for hadamard), all index "
+RULE = ("every constructor exported by toqito.states / toqito.matrices (all have a Lean model since the deepening pass) on dims 2..5, qubit counts 1..5 (0..5 for hadamard), all index "
         "pairs, all accepted argument forms (int/str/list, sparse flag, coefficient vectors with rational norm, scalar and list alpha), "
         "rational parameter grids containing the interval end points, the PPT thresholds, threshold +- 1e-6 and points just outside the "
         "documented ranges; rejection stream where a range is documented. A case = (constructor, arguments). non-trivial = local "
@@ -66,9 +66,12 @@ ASSUMPTIONS = [
     "roots of unity: the harness evaluates the exponent model with exp(2*pi*i*k/d) in float64 (error <= 2 ulp) and compares within 1e-12",
     "PPT verdicts: numpy.linalg.eigvalsh on the harness's own partial transpose; verdicts are only asserted at distance >= 1e-6 (in alpha) from the threshold, "
     "where the closed-form least eigenvalue is >= 1e-8 in modulus; at the threshold |lambda_min| <= 1e-12 is asserted",
-    "Horodecki PPT for irrational sqrt(1-a^2): numerical eigenvalues >= -1e-12; for Pythagorean a the model matrix is exact and its partial transpose is certified PSD by exact rational LDL^T",
-    "mutually unbiased bases come from LAPACK eig: tolerance 1e-10 on |<e|f>|^2",
-    "constructors without a Lean model (bb84, trine, gisin, breuer, chessboard, brauer, pusey_barrett_rudolph) are checked against their defining identities only",
+    "Horodecki PSD / PPT is a Lean theorem for every a in [0,1] (horodecki33_ppt, horodecki24_ppt); on the implementation's arrays: numerical eigenvalues >= -1e-12 for irrational "
+    "sqrt(1-a^2), and for Pythagorean a the model matrix is exact and its partial transpose is additionally certified PSD by exact rational LDL^T",
+    "mutually unbiased bases come from LAPACK eig: tolerance 1e-10 on |<e|f>|^2; order and phase of the eigenvectors inside one basis are LAPACK's and are not "
+    "compared (each returned vector must be a unimodular multiple of exactly one model eigenvector, residual 1e-10); the order of the bases is compared",
+    "trigonometric parameters (gisin theta, pusey_barrett_rudolph theta) are generated from rational Pythagorean (sin, cos) pairs; toqito receives atan2(sin, cos) and the "
+    "comparison with the exact rational model uses 1e-12; chessboard parameters are Gaussian rationals with denominators 4 (comparison 1e-12)",
 ]
 
 TOL = 1e-12
@@ -400,6 +403,11 @@ def check_pauli(k: K):
                 k.bad("product rule sigma_a sigma_b = delta I + i eps sigma_c fails", "pauli", {"a": a, "b": b}, theorem="pauli_sq / pauli_product / pauli_anticommute")
             if a != b and not np.array_equal(prod + mats[b] @ mats[a], np.zeros((2, 2))):
                 k.bad("anticommutation fails", "pauli", {"a": a, "b": b}, theorem="pauli_sq / pauli_product / pauli_anticommute")
+    # every other integer / string selects the identity (the final `else` of the code)
+    for other in (4, 7, -1, "I", "q"):
+        P = M.pauli(other)
+        k.case("pauli", {"ind": other}, False, "pauli/other")
+        k.cmp_int("pauli", {"ind": other}, P, k.L.ask("c17_int", {"kind": "pauli", "ind": [4]}), "(model definition) pauli: every index other than 1, 2, 3 gives the identity")
     # tensor strings
     nmax = 2 if k.quick else 3
     for n in range(2, nmax + 1):
@@ -488,7 +496,7 @@ def check_hadamard(k: K):
         res = k.L.ask("c17_int", {"kind": "hadamard", "n": n})
         res2 = k.L.ask("c17_int", {"kind": "hadamard_mirror", "n": n})
         if res["re"] != res2["re"]:
-            k.bad("closed-form and mirror model of hadamard disagree (model defect)", "hadamard", args, theorem="(harness) mirror model of _hamming_distance vs closed form; equality for all n not proved in Lean")
+            k.bad("closed-form and mirror model of hadamard disagree (model defect)", "hadamard", args, theorem="hadamardMirror_eq")
         k.cmp_int("hadamard", args, H, res, "hadamard_orthogonal")
         sign = H / H[0, 0]
         if not np.array_equal(sign, np.array(res["re"], dtype=float).reshape(res["shape"])):
@@ -566,7 +574,10 @@ def check_basis_bell_maxent(k: K):
         v = S.bell(idx)
         vs.append(np.asarray(v, dtype=float).reshape(-1))
         k.case("bell", args, True)
-        k.cmp_int("bell", args, v, k.L.ask("c17_int", {"kind": "bell", "idx": idx}), "bell_orthonormal")
+        resb = k.L.ask("c17_int", {"kind": "bell", "idx": idx})
+        if resb["re"] != k.L.ask("c17_int", {"kind": "bell_mirror", "idx": idx})["re"]:
+            k.bad("closed-form and mirror model of bell disagree (model defect)", "bell", args, theorem="bellMirror_eq")
+        k.cmp_int("bell", args, v, resb, "bell_orthonormal / bellMirror_eq")
     G = np.array(vs) @ np.array(vs).T
     k.close("Bell states orthonormal", "bell", {}, G, np.eye(4), theorem="bell_orthonormal")
     for idx in range(4):
@@ -878,7 +889,7 @@ def check_werner(k: K):
             U = rational_unitary(rng, d)
             r = commutator_residual(np.real(rho), [U, U, U])
             if r > TOL:
-                k.bad(f"(U x U x U) rho != rho (U x U x U): residual {r:.3e}", "werner", la, theorem="werner_UU_invariant")
+                k.bad(f"(U x U x U) rho != rho (U x U x U): residual {r:.3e}", "werner", la, theorem="wernerList_tensor_invariant / wernerPerms_valid")
             ok = False
             for asort in (True, False):
                 m = k.L.ask("c17_rat", {"kind": "werner_list", "d": d, "alpha": la["alpha"], "argsort": asort})
@@ -891,7 +902,29 @@ def check_werner(k: K):
             if not ok:
                 m = k.L.ask("c17_rat", {"kind": "werner_list", "d": d, "alpha": la["alpha"], "argsort": True})
                 k.cmp_rat("werner", la, rho, m, "wernerList (documented form: I - sum_k alpha(k) P(k+1), normalised)", kind=werner_list_kind(d, al))
-    for bad_alpha in ([0.5, 0.6], [0.5, 0.6, 0.7], [0.1] * 4):
+    # p = 4 (23 parameters): the party-count loop `n_var //= i` takes two rounds
+    if True:
+        d = 2
+        al = [Fraction(ffloat(Fraction(int(x), 100))) for x in rng.integers(-4, 5, size=23)]
+        la = {"dim": d, "alpha": [qj(a) for a in al]}
+        r4 = k.run_impl(S.werner, d, [ffloat(a) for a in al])
+        k.case("werner", la, True, "werner/list23")
+        m = k.L.ask("c17_rat", {"kind": "werner_list", "d": d, "alpha": la["alpha"], "argsort": True})
+        if r4[0] != "ok" or "reject" in m:
+            k.bad(f"23-parameter list form: implementation {r4[0]} {str(r4[1])[:80]}, model {'rejects' if 'reject' in m else 'accepts'}", "werner", la, theorem="wernerParties_spec")
+        else:
+            k.cmp_rat("werner", la, r4[1], m, "wernerList (documented form: I - sum_k alpha(k) P(k+1), normalised); wernerParties_spec", kind=werner_list_kind(d, al))
+            U = rational_unitary(rng, d)
+            r = commutator_residual(np.real(dense(r4[1])), [U, U, U, U])
+            if r > TOL:
+                k.bad(f"(U^(x)4) rho != rho (U^(x)4): residual {r:.3e}", "werner", la, theorem="wernerList_tensor_invariant / wernerPerms_valid")
+    # scalar alpha must be a float: an int is rejected by the dispatch (`isinstance(alpha, float)`)
+    for ia in (0, 1):
+        r = k.run_impl(S.werner, 2, ia)
+        k.case("werner", {"dim": 2, "alpha": ia, "alpha_type": "int"}, False, "werner/reject-stream")
+        if not (r[0] == "raise" and r[1].startswith("ValueError")):
+            k.bad("integer alpha is not rejected with ValueError (the code dispatches on isinstance(alpha, float))", "werner", {"dim": 2, "alpha": ia, "alpha_type": "int"}, theorem="(code branch) dispatch on the type of alpha")
+    for bad_alpha in ([0.5, 0.6], [0.5, 0.6, 0.7], [0.1] * 4, [0.01] * 6, [0.01] * 7, [0.01] * 11, [0.01] * 24):
         r = k.run_impl(S.werner, 2, bad_alpha)
         k.case("werner", {"dim": 2, "alpha_len": len(bad_alpha)}, False, "werner/reject-stream")
         m = k.L.ask("c17_rat", {"kind": "werner_list", "d": 2, "alpha": [qj(Fraction(a)) for a in bad_alpha], "argsort": True})
@@ -957,7 +990,7 @@ def check_horodecki(k: K):
             if sum(q[i][i] for i in range(n)) != 1:
                 k.bad("model trace is not 1 (model defect)", "horodecki", args)
             if not psd_exact(q) or not psd_exact(ptq):
-                k.bad("exact rational check: Horodecki state or its partial transpose is not PSD", "horodecki", args, theorem="(harness) exact LDL^T certificate at this rational parameter; no Lean theorem")
+                k.bad("exact rational check: Horodecki state or its partial transpose is not PSD", "horodecki", args, theorem="horodecki33_psd / horodecki33_ppt / horodecki24_psd / horodecki24_ppt (all a in [0,1], symbolic); here re-checked by an exact LDL^T certificate of the model matrix")
             k.ctx.count("horodecki/exact PSD+PPT certificates")
         grid = [0.0, 1e-9, 0.1, 0.25, 1 / 3, 0.5, 0.7, 0.9, 1 - 1e-9, 1.0]
         for a in grid:
@@ -970,7 +1003,7 @@ def check_horodecki(k: K):
             pt = ptranspose(rho, tuple(dl))
             evt = np.linalg.eigvalsh((pt + pt.T) / 2).min()
             if ev < -TOL or evt < -TOL:
-                k.bad(f"not PSD ({ev:.3e}) or not PPT ({evt:.3e})", "horodecki", args, theorem="(harness) numerical eigenvalues; no Lean theorem for the Horodecki partial transpose")
+                k.bad(f"not PSD ({ev:.3e}) or not PPT ({evt:.3e})", "horodecki", args, theorem="horodecki33_psd / horodecki33_ppt / horodecki24_psd / horodecki24_ppt")
     for a in (-1e-9, -0.5, 1 + 1e-9, 2.0):
         for dim in (None, [2, 4]):
             r = k.run_impl(S.horodecki, a, dim)
@@ -988,90 +1021,213 @@ def check_horodecki(k: K):
 # MUBs and the constructors without a Lean model
 
 
+def mub_match(k: K, args, g, vecs, models, theorem):
+    """vecs: the d returned vectors of basis g; models: the d model vectors (unit norm).  LAPACK fixes neither order nor phase of
+    eigenvectors (eigenspaces are one-dimensional: mub_eigenvector_unique), so each returned vector must be a unimodular multiple
+    of exactly one model vector"""
+    d = len(models)
+    used = set()
+    for r, v in enumerate(vecs):
+        ov = [complex(np.vdot(w, v)) for w in models]
+        best = int(np.argmax([abs(z) for z in ov]))
+        res = float(np.abs(v - ov[best] * models[best]).max())
+        if abs(abs(ov[best]) - 1) > 1e-10 or res > 1e-10 or best in used:
+            k.bad(f"vector {r} of basis {g} is not (a phase times) a fresh eigenvector of the model of X Z^j: best overlap {abs(ov[best]):.12f}, residual {res:.3e}",
+                  "mutually_unbiased_basis", {**args, "basis": g, "vector": r}, impl=v, theorem=theorem)
+            return False
+        used.add(best)
+    return True
+
+
 def check_mub(k: K):
-    for d in (2, 3, 5) if k.quick else (2, 3, 5, 7):
+    for d in (2, 3, 5, 7) if k.quick else (2, 3, 5, 7, 11, 13):
         args = {"dim": d}
         m = S.mutually_unbiased_basis(d)
         k.case("mutually_unbiased_basis", args, True)
         if len(m) != d * (d + 1) or any(np.asarray(v).shape != (d,) for v in m):
-            k.bad("expected d(d+1) vectors of length d", "mutually_unbiased_basis", args, theorem="(harness) mub_unbiased")
+            k.bad("expected d(d+1) vectors of length d", "mutually_unbiased_basis", args, theorem="mub_unbiased")
             continue
         B = [np.array(m[g * d:(g + 1) * d]) for g in range(d + 1)]
         for g in range(d + 1):
             for h in range(d + 1):
                 G = np.abs(B[g].conj() @ B[h].T) ** 2
                 tgt = np.eye(d) if g == h else np.ones((d, d)) / d
-                k.close("orthonormal / unbiased", "mutually_unbiased_basis", {**args, "bases": [g, h]}, G, tgt, tol=1e-10, theorem="(harness) mub_unbiased")
-    for d in (4, 6, 8, 9, 10):
+                k.close("orthonormal / unbiased", "mutually_unbiased_basis", {**args, "bases": [g, h]}, G, tgt, tol=1e-10,
+                        theorem="mub_basis_orthonormal / mub_unbiased / mub_unbiased_standard / mub2_orthonormal / mub2_unbiased")
+        # correspondence with the Lean model: standard basis first, then the eigenbases of X Z^j, j = d, d-1, ..., 1
+        if not np.array_equal(B[0], np.eye(d)):
+            k.bad("the first basis is not the standard basis", "mutually_unbiased_basis", args, impl=B[0], theorem="(model definition) mubLoopJ")
+        X, Z = _M.gen_pauli(1, 0, d), _M.gen_pauli(0, 1, d)
+        for g in range(1, d + 1):
+            cargs = {**args, "basis": g}
+            k.case("mutually_unbiased_basis", cargs, True, "mutually_unbiased_basis/model-eigenbasis")
+            if d == 2:
+                models = []
+                for mm in range(2):
+                    res = k.L.ask("c17_int", {"kind": "mub2", "g": g, "m": mm})
+                    re, im = int_array(res)
+                    models.append((re.astype(float) + 1j * im.astype(float)) / SQ(res["den2"]))
+                mub_match(k, args, g, list(B[g]), models, "mub2_eigenvector / mub2_orthonormal")
+                continue
+            res = k.L.ask("c17_ru", {"kind": "mub", "d": d, "g": g})
+            jj = res["j"]
+            # the matrix the code hands to eig (elementwise power of the clock matrix), rebuilt from the implementation's gen_pauli
+            k.cmp_ru("mutually_unbiased_basis", {**cargs, "what": "pauli_x @ pauli_z ** j", "j": jj}, X @ Z ** jj, res["matrix"], "mubMatMirror_eq")
+            models = [np.exp(2j * np.pi * np.array(row, dtype=float) / d) / SQ(res["den2"]) for row in res["vectors"]]
+            if mub_match(k, args, g, list(B[g]), models, "mubE_eval / mub_eigenvector / mub_eigenvector_unique"):
+                k.ctx.count("mutually_unbiased_basis/eigenbasis matches the model up to order and phase")
+    for d in list(range(2, 17)) + [25, 27] if k.quick else list(range(2, 40)):
+        br = k.L.ask("c17_int", {"kind": "mub_guard", "d": d})["branch"]
         r = k.run_impl(S.mutually_unbiased_basis, d)
-        k.case("mutually_unbiased_basis", {"dim": d}, False, "mutually_unbiased_basis/reject-stream")
-        if not (r[0] == "raise" and r[1].startswith("ValueError")):
-            k.bad("non-prime dimension not rejected", "mutually_unbiased_basis", {"dim": d}, theorem="(documented range)")
+        k.case("mutually_unbiased_basis", {"dim": d, "guard": br}, False, "mutually_unbiased_basis/guard-stream")
+        if br == 0:
+            if r[0] != "ok":
+                k.bad(f"prime dimension rejected: {r[1]}", "mutually_unbiased_basis", {"dim": d}, theorem="isPrimeB_iff_prime")
+        elif not (r[0] == "raise" and r[1].startswith("ValueError")):
+            k.bad("non-prime dimension not rejected with ValueError", "mutually_unbiased_basis", {"dim": d}, theorem="isPrimeB_iff_prime")
+        elif ("prime power" in r[1]) != (br == 1):
+            k.ctx.count("mutually_unbiased_basis/guard message kind differs from the model branch")
+
+
+def qi_array(res):
+    re = np.array([ffloat(Fraction(a, b)) for a, b in res["re"]]).reshape(res["shape"])
+    im = np.array([ffloat(Fraction(a, b)) for a, b in res["im"]]).reshape(res["shape"])
+    return re + 1j * im
 
 
 def check_misc(k: K):
     rng = k.ctx.rng
+    # ---- bb84: [[e_0, e_1], [e_+, e_-]]
     bb = S.bb84()
-    k.case("bb84", {}, True)
     z = np.array([np.asarray(v).reshape(-1) for v in bb[0]])
     x = np.array([np.asarray(v).reshape(-1) for v in bb[1]])
-    k.close("Z basis orthonormal", "bb84", {}, z @ z.T, np.eye(2))
-    k.close("X basis orthonormal", "bb84", {}, x @ x.T, np.eye(2))
-    k.close("bases unbiased", "bb84", {}, (z @ x.T) ** 2, np.ones((2, 2)) / 2)
-    tr = [np.asarray(v, dtype=float).reshape(-1) for v in S.trine()]
-    k.case("trine", {}, True)
+    for b in range(2):
+        for mm in range(2):
+            k.case("bb84", {"basis": b, "vector": mm}, True)
+            k.cmp_int("bb84", {"basis": b, "vector": mm}, bb[b][mm], k.L.ask("c17_int", {"kind": "bb84", "b": b, "m": mm}), "bb84_orthonormal / bb84_unbiased")
+    k.close("Z basis orthonormal", "bb84", {}, z @ z.T, np.eye(2), theorem="bb84_orthonormal")
+    k.close("X basis orthonormal", "bb84", {}, x @ x.T, np.eye(2), theorem="bb84_orthonormal")
+    k.close("bases unbiased", "bb84", {}, (z @ x.T) ** 2, np.ones((2, 2)) / 2, theorem="bb84_unbiased")
+    # ---- trine: components (p + q sqrt 3)/2
+    tl = S.trine()
+    tr = [np.asarray(v, dtype=float).reshape(-1) for v in tl]
+    for i in range(3):
+        k.case("trine", {"idx": i}, True)
+        res = k.L.ask("c17_int", {"kind": "trine", "k": i})
+        tgt = (np.array(res["p"], dtype=float) + np.array(res["q"], dtype=float) * SQ(3)) / res["den"]
+        if len(tl) != 3 or np.asarray(tl[i]).shape != (2, 1):
+            k.bad("expected three (2,1) vectors", "trine", {"idx": i}, theorem="trine_gram")
+        elif not np.array_equal(tr[i] == 0, tgt == 0) or float(np.abs(tr[i] - tgt).max()) > TOL:
+            k.bad("trine state differs from the model (p + q sqrt 3)/2", "trine", {"idx": i}, impl=tr[i], model=res, theorem="trine_gram / trine_sum_zero")
     G = np.array(tr) @ np.array(tr).T
-    k.close("trine Gram matrix", "trine", {}, G, 1.5 * np.eye(3) - 0.5 * np.ones((3, 3)))
-    k.close("trine states sum to zero", "trine", {}, sum(tr), np.zeros(2))
-    for lam in (0.0, 0.3, 1.0):
-        for th in (0.0, 0.7, 2.1):
-            g = S.gisin(lam, th)
-            k.case("gisin", {"lambda": lam, "theta": th}, True)
-            k.close("trace 1", "gisin", {"lambda": lam, "theta": th}, np.trace(g), 1.0)
+    k.close("trine Gram matrix", "trine", {}, G, 1.5 * np.eye(3) - 0.5 * np.ones((3, 3)), theorem="trine_gram")
+    k.close("trine states sum to zero", "trine", {}, sum(tr), np.zeros(2), theorem="trine_sum_zero")
+    # ---- gisin(lambda, theta): rational lambda, Pythagorean (sin, cos)
+    angles = [(Fraction(0), Fraction(1)), (Fraction(1), Fraction(0)), (Fraction(3, 5), Fraction(4, 5)), (Fraction(-5, 13), Fraction(12, 13)), (Fraction(15, 17), Fraction(-8, 17)),
+              (Fraction(-7, 25), Fraction(-24, 25))]
+    for lam in (Fraction(0), Fraction(1, 3), Fraction(1, 2), Fraction(9, 10), Fraction(1)):
+        for (sn, cs) in angles:
+            th = math.atan2(ffloat(sn), ffloat(cs))
+            args = {"lambda": qj(lam), "sin": qj(sn), "cos": qj(cs)}
+            g = S.gisin(ffloat(lam), th)
+            k.case("gisin", args, 0 < lam, "gisin")
+            k.cmp_rat("gisin", args, g, k.L.ask("c17_rat", {"kind": "gisin", "lam": qj(lam), "s": qj(sn), "c": qj(cs)}), "gisin_mixture")
+            k.close("trace 1", "gisin", args, np.trace(g), 1.0, theorem="gisin_trace_one")
+            k.close("symmetric", "gisin", args, g, g.T, theorem="gisin_mixture")
             if np.linalg.eigvalsh(g).min() < -TOL:
-                k.bad("not PSD", "gisin", {"lambda": lam, "theta": th})
-    for lam in (-1e-9, 1 + 1e-9):
-        r = k.run_impl(S.gisin, lam, 0.3)
-        k.case("gisin", {"lambda": lam}, False, "gisin/reject-stream")
-        if not (r[0] == "raise" and r[1].startswith("ValueError")):
-            k.bad("lambda outside [0,1] not rejected", "gisin", {"lambda": lam}, theorem="(documented range)")
-    for d in (2, 4):
-        for lam in (0.0, 0.3, 1.0):
-            b = S.breuer(d, lam)
-            k.case("breuer", {"dim": d, "lam": lam}, True)
-            k.close("trace 1", "breuer", {"dim": d, "lam": lam}, np.trace(b), 1.0)
-            k.close("Hermitian", "breuer", {"dim": d, "lam": lam}, b, b.conj().T)
+                k.bad("not PSD", "gisin", args, theorem="gisin_psd")
+    for lam in (Fraction(-1, 10 ** 9), Fraction(-1, 2), 1 + Fraction(1, 10 ** 9), Fraction(2)):
+        res = k.L.ask("c17_rat", {"kind": "gisin", "lam": qj(Fraction(ffloat(lam))), "s": [3, 5], "c": [4, 5]})
+        k.expect_reject("gisin", {"lambda": qj(lam)}, S.gisin, (ffloat(lam), 0.3), res)
+    # ---- breuer(d, lambda)
+    for d in (2, 4) if k.quick else (2, 4, 6):
+        ps = k.L.ask("c17_int", {"kind": "breuer_psi", "d": d})
+        if ps["closed"] != ps["mirror"]:
+            k.bad("closed-form and mirror model of the pure component disagree (model defect)", "breuer", {"dim": d}, theorem="breuerPsi_mirror_eq")
+        for lam in (Fraction(0), Fraction(1, 3), Fraction(7, 10), Fraction(1)):
+            args = {"dim": d, "lam": qj(lam)}
+            b = S.breuer(d, ffloat(lam))
+            k.case("breuer", args, True)
+            k.cmp_rat("breuer", args, b, k.L.ask("c17_rat", {"kind": "breuer", "d": d, "lam": qj(Fraction(ffloat(lam)))}), "(model definition) breuer; breuerPsi_mirror_eq")
+            k.close("trace 1", "breuer", args, np.trace(b), 1.0, theorem="breuer_trace_one")
+            k.close("Hermitian", "breuer", args, b, b.conj().T, theorem="(model definition) breuer")
             if np.linalg.eigvalsh(b).min() < -TOL:
-                k.bad("not PSD", "breuer", {"dim": d, "lam": lam})
-    for d in (3, 5, 0):
-        r = k.run_impl(S.breuer, d, 0.1)
-        k.case("breuer", {"dim": d}, False, "breuer/reject-stream")
-        if not (r[0] == "raise" and r[1].startswith("ValueError")):
-            k.bad("odd / non-positive dimension not rejected", "breuer", {"dim": d}, theorem="(documented range)")
-    for _ in range(3):
-        p = [float(x) for x in rng.integers(1, 6, size=6)]
-        c = k.pure(S.chessboard, p)
-        k.case("chessboard", {"mat_params": p}, True)
-        k.close("trace 1", "chessboard", {"mat_params": p}, np.trace(c), 1.0)
-        if np.linalg.eigvalsh((c + c.conj().T) / 2).min() < -TOL:
-            k.bad("not PSD", "chessboard", {"mat_params": p})
-    for d, p in ((2, 2), (3, 2), (2, 3)):
-        b = S.brauer(d, p)
-        k.case("brauer", {"dim": d, "p_val": p}, True)
-        cnt = math.factorial(2 * p) // (math.factorial(p) * 2 ** p)
-        if b.shape != (d ** (2 * p), cnt):
-            k.bad("wrong shape", "brauer", {"dim": d, "p_val": p})
+                k.bad("not PSD", "breuer", args, theorem="breuer_psd")
+    for d in (3, 5, 0, -2):
+        k.expect_reject("breuer", {"dim": d}, S.breuer, (d, 0.1), k.L.ask("c17_rat", {"kind": "breuer", "d": d, "lam": [1, 10]}))
+    # ---- chessboard: Gaussian-rational parameters, default and explicit s, t
+    crng = case_rng("c17/chessboard", k.ctx.seed, k.ctx.tier)   # a function of the seed alone, so a replay regenerates the same parameters
+
+    def gq():
+        while True:
+            a, b = int(crng.integers(-8, 9)), int(crng.integers(-8, 9))
+            if a and b:
+                return (Fraction(a, 4), Fraction(b, 4))
+    for it in range(4 if k.quick else 12):
+        form = ("real-int", "complex-default", "complex-explicit-st", "complex-default")[it % 4]
+        if form == "real-int":
+            qs = [(Fraction(int(v)), Fraction(0)) for v in crng.integers(1, 7, size=6)]
+            pyp = [int(q[0]) for q in qs]
+        else:
+            qs = [gq() for _ in range(6)]
+            pyp = [complex(ffloat(a), ffloat(b)) for a, b in qs]
+        req = {"kind": "chessboard", "params": [[qj(a), qj(b)] for a, b in qs], "s": None, "t": None}
+        extra = ()
+        if form == "complex-explicit-st":
+            sq, tq = gq(), gq()
+            req["s"], req["t"] = [[qj(sq[0]), qj(sq[1])]], [[qj(tq[0]), qj(tq[1])]]
+            extra = (complex(ffloat(sq[0]), ffloat(sq[1])), complex(ffloat(tq[0]), ffloat(tq[1])))
+        args = {"mat_params": req["params"], "s": req["s"], "t": req["t"], "form": form}
+        res = k.L.ask("c17_qi", req)
+        if "reject" in res:
             continue
-        k.close("column norms^2 = d^p", "brauer", {"dim": d, "p_val": p}, (b * b).sum(axis=0), np.full(cnt, float(d ** p)))
-        if not np.array_equal(b, (b != 0).astype(float)):
-            k.bad("entries are not 0/1", "brauer", {"dim": d, "p_val": p})
-    for n in (1, 2, 3):
-        th = 0.7
-        st = S.pusey_barrett_rudolph(n, th)
-        k.case("pusey_barrett_rudolph", {"n": n, "theta": th}, True)
-        V = np.array([np.asarray(v).reshape(-1) for v in st])
-        want = np.array([[math.cos(th) ** sum(x != y for x, y in zip(s, t)) for t in itertools.product([0, 1], repeat=n)] for s in itertools.product([0, 1], repeat=n)])
-        k.close("Gram matrix cos(theta)^hamming", "pusey_barrett_rudolph", {"n": n, "theta": th}, V @ V.T, want)
+        c = k.pure(S.chessboard, pyp, *extra)
+        k.case("chessboard", args, True, f"chessboard/{form}")
+        tgt = qi_array(res)
+        if c.shape != (9, 9) or float(np.abs(c - tgt).max()) > TOL:
+            k.bad(f"entries differ from the exact model by {float(np.abs(c - tgt).max()) if c.shape == (9, 9) else 'shape'}", "chessboard", args, impl=c, theorem="(model definition) chessboard; chessboard_trace_one")
+        k.close("trace 1", "chessboard", args, np.trace(c), 1.0, theorem="chessboard_trace_one")
+        k.close("Hermitian", "chessboard", args, c, c.conj().T, theorem="chessboard_hermitian")
+        if np.linalg.eigvalsh((c + c.conj().T) / 2).min() < -TOL:
+            k.bad("not PSD", "chessboard", args)
+    # ---- brauer(d, p): exact 0/1 matrix, columns in the order of perfect_matchings(2p)
+    for d, p in ((2, 1), (3, 1), (5, 1), (2, 2), (3, 2), (2, 3)) if k.quick else ((2, 1), (3, 1), (4, 1), (5, 1), (2, 2), (3, 2), (4, 2), (2, 3), (3, 3)):
+        args = {"dim": d, "p_val": p}
+        r = k.run_impl(S.brauer, d, p)
+        k.case("brauer", args, True, f"brauer/p{p}")
+        if r[0] != "ok":
+            k.bad(f"raises {r[1]}", "brauer", args, theorem="brauer_column")
+            continue
+        b = r[1]
+        res = k.L.ask("c17_int", {"kind": "brauer", "d": d, "p": p})
+        cnt = math.factorial(2 * p) // (math.factorial(p) * 2 ** p)
+        if list(b.shape) != res["shape"] or b.shape[1] != cnt:
+            k.bad(f"shape {list(b.shape)} instead of {res['shape']}", "brauer", args, theorem="brauer_column")
+            continue
+        tgt = np.array(res["re"], dtype=float).reshape(res["shape"])
+        if not np.array_equal(b, tgt):
+            k.bad("Brauer states differ from the model (columns = permute_systems(phi, matching))", "brauer", args, impl=b, matchings=res["matchings"], theorem="brauer_column")
+        k.close("column norms^2 = d^p", "brauer", args, (b * b).sum(axis=0), np.full(cnt, float(d ** p)), theorem="brauer_column_norm")
+    # ---- pusey_barrett_rudolph(n, theta): cos(theta/2), sin(theta/2) Pythagorean
+    for n in (1, 2, 3) if k.quick else (1, 2, 3, 4):
+        for (sn, cs) in ((Fraction(3, 5), Fraction(4, 5)), (Fraction(5, 13), Fraction(12, 13)), (Fraction(0), Fraction(1)), (Fraction(20, 29), Fraction(21, 29))):
+            th = 2 * math.atan2(ffloat(sn), ffloat(cs))
+            args = {"n": n, "sin_half": qj(sn), "cos_half": qj(cs)}
+            st = S.pusey_barrett_rudolph(n, th)
+            k.case("pusey_barrett_rudolph", args, sn != 0)
+            res = k.L.ask("c17_rat", {"kind": "pbr", "n": n, "s": qj(sn), "c": qj(cs)})
+            if len(st) != 2 ** n:
+                k.bad("expected 2^n states", "pusey_barrett_rudolph", args, theorem="pbr_gram")
+                continue
+            V = np.array([np.asarray(v).reshape(-1) for v in st])
+            tgt = np.array([ffloat(Fraction(a, b)) for a, b in res["q"]]).reshape(res["shape"])
+            gram = np.array([ffloat(Fraction(a, b)) for a, b in res["gram"]]).reshape(res["shape"])
+            if V.shape != tgt.shape or float(np.abs(V - tgt).max()) > TOL:
+                k.bad("PBR states differ from the model", "pusey_barrett_rudolph", args, impl=V, theorem="(model definition) pbrVec")
+                continue
+            k.close("Gram matrix cos(theta)^hamming", "pusey_barrett_rudolph", args, V @ V.T, gram, theorem="pbr_gram / pbr_gram_cos")
+            want = np.array([[math.cos(th) ** sum(x != y for x, y in zip(s_, t_)) for t_ in itertools.product([0, 1], repeat=n)] for s_ in itertools.product([0, 1], repeat=n)])
+            k.close("model Gram matrix is cos(theta)^hamming", "pusey_barrett_rudolph", args, gram, want, theorem="pbr_gram_cos")
 
 
 # ------------------------------------------------------------------------------------------------
@@ -1114,6 +1270,8 @@ def replay(ctx, rec):
         "bell": check_basis_bell_maxent, "max_entangled": check_basis_bell_maxent, "ghz": check_ghz, "w_state": check_w, "dicke": check_dicke,
         "tile": check_tile_domino, "domino": check_tile_domino, "gen_bell": check_gen_bell, "werner": check_werner, "singlet": check_werner,
         "isotropic": check_isotropic, "max_mixed": check_isotropic, "horodecki": check_horodecki, "mutually_unbiased_basis": check_mub,
+        "bb84": check_misc, "trine": check_misc, "gisin": check_misc, "breuer": check_misc, "chessboard": check_misc, "brauer": check_misc,
+        "pusey_barrett_rudolph": check_misc,
     }.get(fn)
     for sec in ([owner] if owner else SECTIONS):
         sec(k)
